@@ -100,6 +100,17 @@ def parse_jaqal_string(
         import_path=import_path,
     )
 
+    if override_dict:
+        unknown = [name for name in override_dict if name not in circuit.constants]
+        if unknown:
+            raise JaqalError(
+                f"Cannot override {', '.join(map(str, unknown))}: no such let statement"
+            )
+        if not (expand_let or expand_let_map):
+            raise JaqalError(
+                "override_dict only takes effect with expand_let or expand_let_map"
+            )
+
     if expand_macro:
         # preserve_definitions maintains old API behavior
         circuit = expand_macros(circuit, preserve_definitions=True)
